@@ -7,28 +7,35 @@ from .C09 import planted
 
 THEOREMS = ['every_schedule_terminates', 'sends_end_with_done', 'terminal_received', 'documented_consumer', 'draining_consumer', 'unreadable_file_drains', 'schedule_independent']
 LEVEL = 'proof'
-RULE = ('inputs: valid, with one or several malformed lines, empty, failing reader, unreadable path x consumer policies {stop at first error, '
+RULE = ('inputs: valid, with one or several malformed lines, empty, failing reader, unreadable path; through ParseStream and through ParseFile on a regular file, a named pipe and a directory x consumer policies {stop at first error, '
         'drain until Done} x scheduling-jitter seeds (thorough: race-detector build); non-trivial = input with an error or >= 2 records; '
         'distinct by (input hash, policy, jitter seed)')
 ASSUMPTIONS = ['data races and scheduler starvation are outside the model (race detector in the thorough tier)']
 
 
 class ChanCase:
-    def __init__(self, src, policy, jitter, fail_at=None, unreadable=False):
+    def __init__(self, src, policy, jitter, fail_at=None, unreadable=False, via=''):
         self.src, self.policy, self.jitter, self.fail_at, self.unreadable = src, policy, jitter, fail_at, unreadable
-        self.id = None
+        self.via = via       # '' = ParseStream on a reader; 'file' / 'fifo' = ParseFile on a regular file / named pipe holding src;
+        self.id = None       # 'dir' / 'procdir' = ParseFile on a directory: opens, then every read fails (the model: reader failing at 0)
         self.meta = {}
 
-    def go(self):
+    def lean(self):
         j = {'id': self.id, 'mode': 'chan', 'src': hx(self.src), 'policy': self.policy, 'jitter': self.jitter, 'unreadable': self.unreadable, 'timeoutMs': 1500}
         if self.fail_at is not None:
             j['failAt'] = self.fail_at
         return j
 
-    lean = go
+    def go(self):
+        j = self.lean()
+        if self.via:
+            j['via'] = self.via
+            j.pop('failAt', None)
+        return j
 
     def describe(self):
-        return {'src': self.src.decode('utf-8', 'replace'), 'policy': self.policy, 'jitter_seed': self.jitter, 'failAt': self.fail_at, 'unreadable': self.unreadable}
+        return {'src': self.src.decode('utf-8', 'replace'), 'policy': self.policy, 'jitter_seed': self.jitter, 'failAt': self.fail_at, 'unreadable': self.unreadable,
+                'parseFile_on': self.via or None}
 
 
 def expected_from_callback(obs, policy, unreadable):
@@ -71,6 +78,13 @@ def gen(g, count, seeds):
         for policy in ('first', 'drain'):
             for s in range(seeds):
                 cases.append(ChanCase(src, policy, 1000 * n + s, fail, unread))
+            # the file front end: the same text in a regular file and in a named pipe; a directory (opens, cannot be read)
+            if n % 3 == 0:
+                cases.append(ChanCase(src, policy, 1000 * n + 500, None, False, via='file'))
+                cases.append(ChanCase(src, policy, 1000 * n + 501, None, False, via='fifo'))
+            if n % 25 == 0:
+                cases.append(ChanCase(b'', policy, 1000 * n + 502, 0, False, via='dir'))
+                cases.append(ChanCase(b'', policy, 1000 * n + 503, 0, False, via='procdir'))
     return cases
 
 
@@ -93,7 +107,7 @@ def run(ctx):
         want_model = m['first'] if c.policy == 'first' else m['drain']
         got = i.get('received')
         ok = (i.get('consumer') == 'returned' and got == want_model and (c.policy == 'first' or i.get('producer') == 'exited'))
-        ctx.op('chan:' + c.policy, ok)
+        ctx.op('chan:' + c.policy + (' ParseFile' if c.via else ''), ok)
         if not ok:
             ctx.problem('corr', 'ParseStream/ParseFile with the %s consumer differs from the model' % c.policy, c, {'impl': i, 'model': want_model})
         want = expected_from_callback(pimpl[refs[(c.src, c.fail_at)].id], c.policy, c.unreadable)
@@ -107,9 +121,9 @@ def run(ctx):
         elif c.policy == 'drain' and i.get('producer') != 'exited':
             ctx.problem('oracle', 'the producer goroutine is still blocked after the draining consumer saw Done', c, {'impl': i}, signature='chan-producer-leak')
         ctx.count('policy:' + c.policy)
-        ctx.count('unreadable' if c.unreadable else 'failing-reader' if c.fail_at is not None else 'readable')
+        ctx.count('ParseFile:' + c.via if c.via else 'unreadable' if c.unreadable else 'failing-reader' if c.fail_at is not None else 'readable')
         if len(want) >= 3 or any(x['t'] != 'node' and x['t'] != 'done' for x in want):
-            ctx.mark_nontrivial((sig(c.src), c.policy, c.jitter, c.fail_at, c.unreadable))
+            ctx.mark_nontrivial((sig(c.src), c.policy, c.jitter, c.fail_at, c.unreadable, c.via))
     ctx.sample(cases[3].describe())
     if ctx.tier == 'thorough':
         from .. import core
